@@ -473,7 +473,22 @@ def r5(ctx, F, bs):
     lo = set()
     for lb, lt in r.calls_to('archive::Archive::load'):
         lo |= {(o.kind, o.key, o.bb) for o in r.origins(lt['args'][0])}
-    ctx.check(bool(lo) and {(o.kind, o.key, o.bb) for o in po} == lo, 'C06.R5', 'run_bisync:save-path', 'saved to the path that was loaded (archive_path(&pair))',
+    def this_runs_path(os_):
+        # archive_path(&root_pair_hash(root_a, root_b)) of this run's two roots - whichever call instance computed it
+        os_ = [o for o in os_ if o.kind != 'comb']
+        if not os_ or not all(o.kind == 'call' and o.key == 'archive::archive_path' for o in os_):
+            return False
+        for o in os_:
+            ho = [x for x in call_arg_origins(r, o.bb, 0) if x.kind != 'comb']
+            if not ho or not all(x.kind == 'call' and x.key == 'archive::root_pair_hash' for x in ho):
+                return False
+            for x in ho:
+                a0, a1 = call_arg_origins(r, x.bb, 0), call_arg_origins(r, x.bb, 1)
+                if not (a0 and a1 and all(y.kind == 'param' and y.key == 1 for y in a0) and all(y.kind == 'param' and y.key == 2 for y in a1)):
+                    return False
+        return True
+    same_derivation = bool(lo) and this_runs_path(po) and all(this_runs_path(r.origins(lt['args'][0])) for lb, lt in r.calls_to('archive::Archive::load'))
+    ctx.check((bool(lo) and {(o.kind, o.key, o.bb) for o in po} == lo) or same_derivation, 'C06.R5', 'run_bisync:save-path', 'saved to the path that was loaded (archive_path(&pair))',
               'the archive is saved to a different path than the one load() consulted', term_loc(R, sb))
 
 
